@@ -1,6 +1,7 @@
 import SecsModel.Props.C08
 #print axioms SecsModel.Props.C08.exactly_one
 #print axioms SecsModel.Props.C08.callback_table
+#print axioms SecsModel.Props.C08.reply_handed_over
 #print axioms SecsModel.Props.C08.registered_callback_wins
 #print axioms SecsModel.Props.C08.catalogue_has_replies
 #print axioms SecsModel.Props.C08.exactly_one_builtin
